@@ -19,7 +19,7 @@ NoObj == [vs |-> "none", bs |-> "none", roots |-> 0, wroots |-> 0, s |-> <<>>, p
 
 MonInit == [cfg |-> [fin |-> TRUE, weak |-> TRUE, dbg |-> TRUE, auto |-> FALSE, clean |-> FALSE, ns |-> 2, np |-> 0, nw |-> 0, run |-> 0],
             objs |-> <<>>, stack |-> <<>>, seen |-> {}, viol |-> <<>>, log |-> <<>>, n |-> 0,
-            bytes |-> 0, blocks |-> <<>>, faulted |-> FALSE, resur |-> FALSE, x |-> 0, lastbf |-> 0, wn |-> 0,
+            bytes |-> 0, blocks |-> <<>>, faulted |-> FALSE, resur |-> FALSE, x |-> 0, lastbf |-> 0, wn |-> 0, punw |-> "",
             acfg |-> [auto |-> FALSE, pn |-> 1, pd |-> 10, bt |-> 0], big |-> FALSE,
             acts |-> <<>>, cgone |-> {}, wup |-> FALSE]
 
@@ -342,7 +342,14 @@ OnRet(m00, e) ==
       atMaxS == Known(m00, tgt) /\ Cnt(m00, tgt) + m00.objs[tgt].slack >= MaxStrong
       atMaxW == Known(m00, tgt) /\ WCntObs(m00, tgt) >= MaxWeak
       okMax == (op \in StrongMakers /\ atMaxS) \/ (op \in WeakMakers /\ atMaxW)
-      mI0 == Flag(mI, e.panic = "max" /\ ~okMax, "C16", op \o " panicked with a saturation error below the supported maximum")
+      \* the debug-build refusals ("Cannot ... while tracing!") may only fire while a Trace::trace call is running
+      porig == IF m00.punw # "" THEN m00.punw ELSE op
+      tracingBad == e.panic = "tracing" /\ ~CbOpen(m00, {"trace"}) /\ (m00.punw \notin {"", "-"} \/ (m00.punw = "" /\ ~fr.traced))
+      mIt0 == Flag(mI, tracingBad, "C12",
+                  porig \o " was refused with a 'while tracing' panic although no Trace::trace call is running")
+      mIt == Flag(mIt0, tracingBad /\ porig \in {"upgrade", "upgradef"}, "C08",
+                  "Weak::upgrade panicked ('while tracing') instead of returning None, outside any Trace::trace call")
+      mI0 == Flag(mIt, e.panic = "max" /\ ~okMax, "C16", op \o " panicked with a saturation error below the supported maximum")
       mI1 == Flag(mI0, ~pan /\ ((op \in StrongMakers \ {"clonen"} /\ atMaxS /\ ~(op \in {"upgrade", "upgradef"} /\ res = "none")) \/ (op \in WeakMakers \ {"clonewn"} /\ atMaxW)), "C16",
                   op \o " succeeded beyond the supported maximum number of pointers")
       unexpl == pan /\ ~fr.fault /\ e.panic \notin {"max", "unwind"} /\ ~(e.panic = "fagain" /\ op = "fagain")
@@ -441,7 +448,9 @@ OnRet(m00, e) ==
                                /\ mR.objs[x].roots = 0 /\ mR.objs[x].infl = 0 /\ Cnt(mR, x) = 0 /\ WCnt(mR, x) = 0 /\ mR.objs[x].caps = {}
                                /\ ~(x + 100 \in Ids(mR) /\ mR.objs[x + 100].ismap)}
       mS == IF lim = 0 /\ gone # {} THEN [mR EXCEPT !.objs = [x \in DOMAIN @ \ gone |-> @[x]]] ELSE mR
-  IN mS
+      \* the operation in which the panic that is unwinding now was raised (the harness classifies it at the outermost return)
+      \* ("-" = raised inside an operation that ran a tracing phase itself, where the debug-build refusals are legitimate)
+  IN [mS EXCEPT !.punw = IF lim = 0 THEN "" ELSE IF pan /\ m00.punw = "" THEN (IF fr.traced THEN "-" ELSE op) ELSE m00.punw]
 
 \* ------------------------------------------------------------------ callbacks
 OnCb(m, e) ==
